@@ -159,7 +159,7 @@ type recRun struct {
 	run    int
 	rng    *rand.Rand
 	w      *world
-	name   map[string]string        // member label -> concrete name
+	name   map[string]string // member label -> concrete name
 	d      *document
 	ids    map[string]string        // canonical text -> value token
 	past   map[string][]interface{} // member label / "unsigned" -> earlier values (to restore)
